@@ -13,6 +13,10 @@ The C01 routing property as an executable specification, written without the tri
     request is not served (no second try with a less specific host);
   * not served = 404, or 421 for HTTP/2 and later.
 
+Declaration order enters in exactly one place, as a clause: plugin-designated fallback sites
+(`FallbackSite`) are tried in the order they are declared; everything else depends on the set of
+site addresses only (Props/C01: `C01_order_independent_given_fallback_order`).
+
 `verdict` compares an observed outcome with this specification; it is what the
 model driver applies to the implementation's answers, and Props/C01 proves that the
 trie model always gets the verdict "ok".
@@ -106,26 +110,54 @@ def chosenKey (sites : List Site) (r : Req) : Option (Bytes × Bytes) :=
   | some c =>
     ((prefixesDesc r.path).find? (fun k => es.any (fun e => e.host == c && e.path == k))).map (fun k => (c, k))
 
+/-- `chosenKey` with the list of fallback hosts given: the only thing besides the SET of site
+addresses that the choice depends on.  Clause of the specification: designated fallback hosts are
+tried in the order their sites are declared ("among designated fallback sites the first declared
+wins"); `fallbacks sites` is that order. -/
+def chosenKeyWith (fbs : List Bytes) (sites : List Site) (r : Req) : Option (Bytes × Bytes) :=
+  let es := entries sites
+  match (candidates (normHost r.host) fbs).find? (declared es) with
+  | none => none
+  | some c =>
+    ((prefixesDesc r.path).find? (fun k => es.any (fun e => e.host == c && e.path == k))).map (fun k => (c, k))
+
+def isFallbackSite (sites : List Site) (i : Nat) : Bool :=
+  match sites[i]? with
+  | some s => s.fallback
+  | none => false
+
 /-- the domain of the property: well-formed host spellings, origin-form request path -/
 def inDomain (sites : List Site) (r : Req) : Bool :=
   wfHost (lower r.host) && r.path.head? == some cSlash && sites.all (fun s => wfHost (lower (keyHost (vhostOf s.key))))
 
+/-- `/.well-known/acme-challenge/` -/
+def acmePrefix : Bytes := [47, 46, 119, 101, 108, 108, 45, 107, 110, 111, 119, 110, 47, 97, 99, 109, 101, 45, 99, 104, 97, 108, 108, 101, 110, 103, 101, 47]
+
+def asciiOnly (s : Bytes) : Bool := s.all (· < 128)
+
+/-- Where the property is judged on the implementation's answers: the domain of the refinement
+theorem, and in addition
+  * ASCII host spellings only — the model lower-cases ASCII letters, Go's `strings.ToLower` also maps
+    non-ASCII letters (and replaces invalid UTF-8), so hosts with bytes ≥ 0x80 are outside the model;
+  * not an ACME HTTP-challenge request: `serveHTTP` hands `/.well-known/acme-challenge/…` to the
+    certificate issuer before (and instead of) the site's handlers; that interception is out of scope. -/
+def judged (sites : List Site) (r : Req) : Bool :=
+  inDomain sites r && asciiOnly r.host && sites.all (fun s => asciiOnly s.key) && !acmePrefix.isPrefixOf r.path
+
 def verdict (sites : List Site) (r : Req) (o : Outcome) : String :=
-  if !inDomain sites r then "ok"
+  if !judged sites r then "ok"
   else
     match specRoute sites r, o with
     | .site i p, .site j q =>
-      if i != j then s!"bad:wrong-site:site {j} ran, the most specific match is site {i}"
+      if i != j then
+        if isFallbackSite sites i && isFallbackSite sites j then
+          s!"bad:fallback-order:designated fallback site {j} ran although the earlier declared fallback site {i} matches"
+        else s!"bad:wrong-site:site {j} ran, the most specific match is site {i}"
       else if p != q then "bad:wrong-prefix:the right site ran with another path prefix"
-      else if chosenKey sites r != chosenKey sites.reverse r then
-        "bad:order-dependent:declaring the same sites in reverse order sends this request to another site"
       else "ok"
     | .site i _, .notFound st => s!"bad:not-served:answered {st}, but site {i} matches"
     | .notFound _, .site j _ => s!"bad:served-unmatched:site {j} ran, but no site matches"
     | .notFound a, .notFound b =>
-      if a != b then s!"bad:wrong-status:answered {b}, expected {a}"
-      else if chosenKey sites r != chosenKey sites.reverse r then
-        "bad:order-dependent:declaring the same sites in reverse order serves this request"
-      else "ok"
+      if a != b then s!"bad:wrong-status:answered {b}, expected {a}" else "ok"
 
 end Casket.VHostSpec
